@@ -170,6 +170,10 @@ def contract_text(f, pre, post, lemma=False, requires_extra=(), ensures_extra=()
         ens.append('__CPROVER_ensures(%s(%s))' % (post, ', '.join(a)))
     for e in ensures_extra:
         ens.append('__CPROVER_ensures(%s)' % e)
+    if not req:
+        req.append('__CPROVER_requires(1)')
+    if not ens:
+        ens.append('__CPROVER_ensures(1)')
     return '\n'.join(req + ens + ['__CPROVER_assigns(%s)' % ', '.join(assigns)])
 
 
@@ -241,8 +245,16 @@ def emit_unit(unit, outdir):
         for i in range(len(f['params']), 0, -1):
             txt = txt.replace('$%d' % i, f['params'][i - 1][0])
         return txt
-    ex.contracts[cn] = contract_text(f, unit.pre, unit.post, unit.lemma, [subst(x) for x in unit.requires_extra],
-                                     [subst(x) for x in unit.ensures_extra])
+    req_extra = [subst(x) for x in unit.requires_extra]
+    if unit.ub_only:
+        # C07 domain: every fixed_t argument finite or +-NaN (every raw value but INT64_MIN), shift counts <= 63,
+        # anything else unconstrained
+        for name, t in f['params']:
+            if t.base == 'fixed_t':
+                req_extra.append('%s%sv != (-0x7FFFFFFFFFFFFFFFL - 1L)' % (name, '->' if t.ref == 'lref' else '.'))
+        if f['name'] in ('operator<<', 'operator>>') and len(f['params']) == 2 and f['params'][1][1].base == 'int':
+            req_extra.append('%s <= 63' % f['params'][1][0])
+    ex.contracts[cn] = contract_text(f, unit.pre, unit.post, unit.lemma, req_extra, [subst(x) for x in unit.ensures_extra])
     prelude = PRELUDE + unit.prelude + '\n'
     uf_abstracted = []
     for (g, gpre, gpost) in unit.replace:
